@@ -445,6 +445,34 @@ def _affix(vm, o, args, kw, front):
     return vm.truth(vm.eq(part, mk_bytes(atoms_of(pre))))
 
 
+def _partition(vm, o, args, last):
+    """bytes.partition / rpartition(sep) for a one-byte separator: runs are skipped when their declared fill excludes it."""
+    sep = args[0]
+    if not isinstance(sep, (bytes, bytearray)) or len(sep) != 1:
+        raise Unsupported('partition with a separator that is not one concrete byte')
+    atoms = [atom_val(x) for x in atoms_of(o)]
+    order = range(len(atoms) - 1, -1, -1) if last else range(len(atoms))
+    for i in order:
+        x = atoms[i]
+        if isinstance(x, Run):
+            fill = vm.run_fill.get(x.rid)
+            if not fill or sep[0] in fill:
+                raise Unsupported('partition over an opaque run whose content is not known to exclude the separator')
+            continue
+        if vm.truth(vm.eq(x, sep[0])):
+            return (mk_bytes(atoms_of(o)[:i]), bytes(sep), mk_bytes(atoms_of(o)[i + 1:]))
+    whole = mk_bytes(atoms_of(o))
+    return (b'', b'', whole) if last else (whole, b'', b'')
+
+
+def bm_rpartition(vm, o, args, kw):
+    return _partition(vm, o, args, True)
+
+
+def bm_partition(vm, o, args, kw):
+    return _partition(vm, o, args, False)
+
+
 def bm_join(vm, o, args, kw):
     parts = list(vm.iterate(args[0]))
     out = []
@@ -1315,6 +1343,8 @@ def install(vm):
         MM[(t, 'decode')] = bm_decode
         MM[(t, 'join')] = bm_join
         MM[(t, 'startswith')] = bm_startswith
+        MM[(t, 'partition')] = bm_partition
+        MM[(t, 'rpartition')] = bm_rpartition
         MM[(t, 'endswith')] = bm_endswith
     for t in (SBytes, bytearray):
         MM[(t, 'append')] = bm_append
